@@ -6,3 +6,4 @@ import NutsModel.Thm.Sched
 import NutsModel.Thm.C17
 import NutsModel.Thm.C01Refine
 import NutsModel.Thm.C16
+import NutsModel.Thm.C19Settings
